@@ -11,6 +11,7 @@ for d in sorted(glob.glob(os.path.join(VERIF, "seeded", "C*-*m[12]"))):
         continue
     meta = json.load(open(os.path.join(d, "meta.json")))
     pid = meta["property"]
+    retired = str(meta.get("status", "")).startswith("retired")
     assert subprocess.run(["git", "-C", "/repo", "status", "--porcelain"], capture_output=True, text=True).stdout.strip() == "", "repo dirty"
     subprocess.run(["git", "-C", "/repo", "apply", os.path.join(d, "patch.diff")], check=True)
     try:
@@ -24,7 +25,9 @@ for d in sorted(glob.glob(os.path.join(VERIF, "seeded", "C*-*m[12]"))):
                       "with_failing_input": any("no-failing-input-found" not in l for l in lines),
                       "first": lines[0] if lines else ""}
         results[name] = {"property": pid, "checks": row, "wall_s": round(time.time() - t0, 1)}
-        print(name, {c: ("CAUGHT+input" if r["with_failing_input"] else "CAUGHT(no input)" if r["exit"] == 1 else f"MISSED(exit {r['exit']})") for c, r in row.items()}, flush=True)
+        if retired:
+            results[name]["negative_control"] = True
+        print(name + (" [negative control: must stay quiet]" if retired else ""), {c: ("CAUGHT+input" if r["with_failing_input"] else "CAUGHT(no input)" if r["exit"] == 1 else f"MISSED(exit {r['exit']})") for c, r in row.items()}, flush=True)
     finally:
         subprocess.run(["git", "-C", "/repo", "checkout", "--", "."], check=True)
 json.dump(results, open(res_path, "w"), indent=1)
